@@ -1,1 +1,6 @@
 // harness bodies for h2 src/hpack/table.rs (compiled in-crate as `verif_h`, feature "verif")
+use super::*;
+
+pub(crate) fn size(t: &Table) -> usize {
+    t.size
+}
